@@ -642,6 +642,33 @@ static void sort_object(cJSON * const object, const cJSON_bool case_sensitive)
     }
 }
 
+static cJSON_bool compare_json(cJSON *a, cJSON *b, const cJSON_bool case_sensitive);
+
+/* compare two objects member by member without changing the order of their members */
+static cJSON_bool compare_objects_unsorted(cJSON *a, cJSON *b, const cJSON_bool case_sensitive)
+{
+    cJSON *a_member = NULL;
+    cJSON *b_member = NULL;
+    size_t a_count = 0;
+    size_t b_count = 0;
+
+    for (a_member = a->child; a_member != NULL; a_member = a_member->next)
+    {
+        b_member = case_sensitive ? cJSON_GetObjectItemCaseSensitive(b, a_member->string) : cJSON_GetObjectItem(b, a_member->string);
+        if ((b_member == NULL) || !compare_json(a_member, b_member, case_sensitive))
+        {
+            return false;
+        }
+        a_count++;
+    }
+    for (b_member = b->child; b_member != NULL; b_member = b_member->next)
+    {
+        b_count++;
+    }
+
+    return (a_count == b_count);
+}
+
 static cJSON_bool compare_json(cJSON *a, cJSON *b, const cJSON_bool case_sensitive)
 {
     if ((a == NULL) || (b == NULL) || ((a->type & 0xFF) != (b->type & 0xFF)))
@@ -695,33 +722,9 @@ static cJSON_bool compare_json(cJSON *a, cJSON *b, const cJSON_bool case_sensiti
 
         case cJSON_Object:
             CJSON_VERIF_YIELD(46)
-            sort_object(a, case_sensitive);
-            sort_object(b, case_sensitive);
-            for ((void)(a = a->child), b = b->child; (a != NULL) && (b != NULL); (void)(a = a->next), b = b->next)
-            {
-                cJSON_bool identical = false;
-                /* compare object keys */
-                if (compare_strings((unsigned char*)a->string, (unsigned char*)b->string, case_sensitive))
-                {
-                    /* missing member */
-                    return false;
-                }
-                identical = compare_json(a, b, case_sensitive);
-                if (!identical)
-                {
-                    return false;
-                }
-            }
-
-            /* object length mismatch (one of both children is not null) */
-            if ((a != NULL) || (b != NULL))
-            {
-                return false;
-            }
-            else
-            {
-                return true;
-            }
+            /* compare member by member without sorting: a comparison must not relink the members of its arguments
+             * (reference items and their owner would keep pointing into the middle of a reordered list) */
+            return compare_objects_unsorted(a, b, case_sensitive);
 
         default:
             break;
